@@ -136,6 +136,41 @@ def _reader_mass(ctx):
                   f"differs for {diffs[:4]} (state consumed or shared between init calls)", site)
         ctx.check(all(iso2(s_, a_) is not iso(s_, a_) for s_, cells in blocks.items() for a_ in cells), "R6",
                   "each table has its own isotope objects", "isotope objects shared between tables", site)
+    # R6: a table initialised after another table's masses were edited (and with that table standing as the public one) is
+    # still filled from the embedded tables: what one table serves is never the source of another
+    saved_pub = I.module_cache.get(("core", "PUBLIC_TABLE"))
+    I.module_cache[("core", "PUBLIC_TABLE")] = T
+    fe_h, fe54_h = I.heap[I.getattr(T, "Fe").id], I.heap[I.heap[I.getattr(T, "Fe").id]["_isotopes"][54].id]
+    before_edit = (fe_h.get("_mass"), fe54_h.get("_abundance"), fe54_h.get("_mass"))
+    # (the real tables have a mass for every element; the probe tables list a few: the others get a placeholder so that
+    # the standing public table is complete)
+    filled = []
+    for z_ in range(0, 119):
+        h_ = I.heap[I.lib.subscript(I, T, sp.Integer(z_)).id]
+        for o_ in [h_] + [I.heap[i_.id] for i_ in h_.get("_isotopes", {}).values()]:
+            for k_ in ("_mass", "_mass_unc") + (("_abundance", "_abundance_unc") if o_ is not h_ else ()):
+                if k_ not in o_:
+                    o_[k_] = sp.Integer(0)
+                    filled.append((o_, k_))
+    fe_h["_mass"], fe54_h["_abundance"], fe54_h["_mass"] = sp.Integer(999), sp.Integer(99), sp.Integer(998)
+    try:
+        T3 = I.instantiate(PT, ["third"], {}, name="T3", open_attrs=())
+        rr = raises(lambda: I.call(I.global_name("mass", "init"), [T3], {}))
+        ctx.check(rr is None, "R6", "mass.init on a table created after another table was edited", f"raises {rr}", site)
+        if rr is None:
+            f3 = I.heap[I.getattr(T3, "Fe").id]
+            f354 = I.heap[f3["_isotopes"][54].id] if 54 in f3.get("_isotopes", {}) else {}
+            got3 = (f3.get("_mass"), f354.get("_abundance"), f354.get("_mass"))
+            ctx.check(got3 == before_edit, "R6", "a table initialised after the public table's masses were edited gets the embedded values",
+                      f"Fe mass, Fe-54 abundance, Fe-54 mass = {got3}, the embedded tables give {before_edit}: values were copied from the edited table", site)
+    finally:
+        fe_h["_mass"], fe54_h["_abundance"], fe54_h["_mass"] = before_edit
+        for o_, k_ in filled:
+            o_.pop(k_, None)
+        if saved_pub is None:
+            I.module_cache.pop(("core", "PUBLIC_TABLE"), None)
+        else:
+            I.module_cache[("core", "PUBLIC_TABLE")] = saved_pub
     # R6: only the given table is written
     touched = [oid for oid in I.heap if oid not in heap_before]
     ctx.check("mass" in I.heap[T.id].get("properties", []), "R6", "mass.init marks the table it was given", "not marked", site)
